@@ -113,7 +113,7 @@ def run(ctx):
             "connections, every unanswered request re-sent twice although the connection carrying them never dropped")
     init = ctx.func(BC + ".__init__")
     tbl = [x for x in walk_body_shallow(init.body) if isinstance(x, ast.Assign) and self_attr(x.targets[0]) == "requests"]
-    ins = [(f, n) for f, k, n in prog.attr_accesses(ci, "requests", False) if k == "mutate" and isinstance(n, ast.Assign)]
+    ins = [(f, n) for f, n, _k, _v in table_writers(ctx, ci, "self.requests")]
     r.check(bool(tbl) and norm(tbl[0].value) == "OrderedDict()" and [f.qname for f, n in ins] == [mk.qname],
             "%s#ordered-table-single-insert" % BC, "request table is not an OrderedDict filled only by makeRequest",
             where(init, tbl[0] if tbl else init.node))
@@ -329,8 +329,7 @@ def run(ctx):
             where(close, close.node), "requests pending at close never complete")
     cm = ctx.cfg(mk)
     fm = ctx.facts(mk)
-    insn = [n for n in cm.nodes if n.kind == "stmt" and isinstance(n.stmt, ast.Assign) and any(
-        isinstance(t, ast.Subscript) and self_attr(t.value) == "requests" for t in n.stmt.targets)]
+    insn = [n for n, _k, _v in table_stores(ctx, mk, "self.requests")]
     r.check(bool(insn) and all(known_falsy(fm[n.id], "self._dDown") for n in insn), "%s#refuses-after-close" % mk.qname,
             "makeRequest accepts a request after close()", where(mk, mk.node), "request queued for ever / connection attempt after close")
     # the handler close() registers on the pending attempt before cancelling it (whatever it is called)
